@@ -517,7 +517,7 @@ func runC17(args []string) int {
 		// what the first run would post, to seed the store with equal / near-equal / stale / foreign comments
 		first, _ := c17RunRound(&memCommenter{budget: 0, skip: map[string]bool{}}, reps, showDups, "probe")
 		for _, p := range first.Pending {
-			switch r.Intn(8) {
+			switch r.Intn(10) {
 			case 0:
 				m.nextID++
 				m.store = append(m.store, memComment{ID: m.nextID, Path: p.Path, Text: p.Text, Line: p.Line, Deletable: r.Intn(3) > 0})
@@ -530,6 +530,12 @@ func runC17(args []string) int {
 			case 3:
 				m.nextID++
 				m.store = append(m.store, memComment{ID: m.nextID, Path: p.Path, Text: p.Text + " edited", Line: p.Line, Deletable: true}) // stale: other text
+			case 4:
+				m.nextID++
+				m.store = append(m.store, memComment{ID: m.nextID, Path: pick(r, []string{"a.yml", "b.yml", "c.yml", "moved/" + p.Path}), Text: p.Text, Line: p.Line, Deletable: r.Intn(2) == 0}) // other (or, by chance, the same) path
+			case 5:
+				m.nextID++
+				m.store = append(m.store, memComment{ID: m.nextID, Path: p.Path, Text: p.Text, Line: 0, Deletable: r.Intn(2) == 0}) // a comment without a line
 			}
 		}
 		for i := r.Intn(3); i > 0; i-- {
